@@ -32,16 +32,66 @@ def ensure_home():
 
 
 class _AsyncioShim:
-    """stands in for the `asyncio` module inside frontend.server.services.services_manager"""
+    """stands in for the `asyncio` module inside the server-side modules (services_manager, service, connector): everything
+    passes through to asyncio except the two sources of TIME -- sleep() and the timeout of wait_for() -- which belong to the
+    harness: sleep parks on the installed coroutine function, a wait_for timeout fires only when the harness's timer
+    controller says so (without a controller no timeout ever fires: cases finish within milliseconds of real time)"""
 
-    def __init__(self, sleep):
+    def __init__(self, sleep, timers=None):
         self._sleep = sleep
+        self._timers = timers
 
     def __getattr__(self, name):
         return getattr(asyncio, name)
 
     async def sleep(self, delay, result=None):
-        return await self._sleep(delay)
+        await self._sleep(delay)
+        return result
+
+    async def wait_for(self, aw, timeout):
+        if timeout is None:
+            return await aw
+        if self._timers is None:
+            return await aw   # nothing in a case takes long enough for a real timeout to matter
+        return await self._timers.wait_for(aw, timeout)
+
+
+class Timers:
+    """virtual timeouts: a wait_for(aw, t) registered here times out exactly when fire_one() is called while it is pending
+    (real time is never consulted) -- 'the earlier connection stayed open for longer than t' becomes a schedulable event"""
+
+    def __init__(self):
+        self.pending = []
+
+    async def wait_for(self, aw, timeout):
+        loop = asyncio.get_running_loop()
+        task = asyncio.ensure_future(aw)
+        fire = loop.create_future()
+        self.pending.append(fire)
+        try:
+            await asyncio.wait([task, fire], return_when=asyncio.FIRST_COMPLETED)
+        except asyncio.CancelledError:
+            task.cancel()
+            raise
+        finally:
+            if fire in self.pending:
+                self.pending.remove(fire)
+        if task.done():
+            if not fire.done():
+                fire.cancel()
+            return task.result()
+        task.cancel()
+        with contextlib.suppress(BaseException):
+            await task
+        raise asyncio.TimeoutError()
+
+    def fire_one(self):
+        while self.pending:
+            fut = self.pending.pop(0)
+            if not fut.done():
+                fut.set_result(None)
+                return True
+        return False
 
 
 async def _fast_sleep(delay):
@@ -70,9 +120,10 @@ def modules():
         logging.getLogger("websockets").setLevel(logging.CRITICAL)
         logging.getLogger("websockets.server").setLevel(logging.CRITICAL)
         logging.getLogger("asyncio").setLevel(logging.CRITICAL)
-        services_manager.asyncio = _AsyncioShim(_fast_sleep)
         _STATE["sleep"] = _fast_sleep
+        _STATE["timers"] = None
         _STATE["ready"] = True
+        _install_shim(services_manager, server_service, connector)
 
     class NS:
         pass
@@ -90,11 +141,20 @@ def modules():
     return ns
 
 
-def set_sleep(fn):
-    """install another coroutine function as the services manager's sleep (C12 uses a gate)"""
+def _install_shim(*mods):
+    shim = _AsyncioShim(_STATE.get("sleep", _fast_sleep), _STATE.get("timers"))
+    for m in mods:
+        if getattr(m, "asyncio", None) is not None:
+            m.asyncio = shim
+
+
+def set_sleep(fn, timers=None):
+    """install another coroutine function as the server's sleep (a gate owned by the driver) and, optionally, a controller of
+    wait_for timeouts"""
     ns = modules()
     _STATE["sleep"] = fn
-    ns.services_manager.asyncio = _AsyncioShim(fn)
+    _STATE["timers"] = timers
+    _install_shim(ns.services_manager, ns.server_service, ns.connector)
 
 
 def hard_restart_server_state():
@@ -104,7 +164,7 @@ def hard_restart_server_state():
     ns = modules()
     for m in (ns.server_fm, ns.server_service, ns.services_manager, ns.connector):
         importlib.reload(m)
-    ns.services_manager.asyncio = _AsyncioShim(_STATE.get("sleep", _fast_sleep))
+    _install_shim(ns.services_manager, ns.server_service, ns.connector)
     for name in ("sse_server",):
         lg = logging.getLogger(name)
         for h in list(lg.handlers):
